@@ -68,7 +68,6 @@ Definition live (c : N) (tr : list event) : nat := count_ev (is_runcall c) tr - 
 Definition subset_N (a b : list N) : bool := forallb (fun x => mem_N x b) a.
 
 (* the property's notion: the SET of runnable identities (names) *)
-Definition names (P : params) (cf : config) : list N := map (fun e => name_of P (fst e)) cf.
 Definition same_name_set (P : params) (a b : config) : bool :=
   subset_N (names P a) (names P b) && subset_N (names P b) (names P a).
 
@@ -195,7 +194,9 @@ Definition C11_holdsb (P : params) (tr : list event) : N := c11_walk P (S (lengt
 
 (* ------------------------------------------------------------------ C09 *)
 
-(* at a quiescent Running observation with no reload in flight: running children == configured *)
+(* at a quiescent Running observation with no reload in flight: running children == configured.
+   For a child with a non-blocking Stop a restart may overlap the previous Run (what the child then
+   does is its own business), so only "nothing outside the configuration runs" is required of it. *)
 Fixpoint c09_walk (P : params) (pre : list event) (tr : list event) (cur : config) (calm : bool) : N :=
   match tr with
   | [] => 0%N
@@ -209,7 +210,9 @@ Fixpoint c09_walk (P : params) (pre : list event) (tr : list event) (cur : confi
         calm
         && Nat.eqb (count_ev (fun x => match x with EApiCall OpReload _ => true | _ => false end) pre)
                    (count_ev (fun x => match x with EApiRet OpReload _ _ => true | _ => false end) pre)
-        && negb (forallb (fun c => Nat.eqb (live c pre) (count_in c cur)) (children_of P))
+        && negb (forallb (fun c => if is_nonblocking P c
+                                    then Nat.leb (live c pre) (count_in c cur)
+                                    else Nat.eqb (live c pre) (count_in c cur)) (children_of P))
       | _ => false
       end in
     if bad then 20%N else c09_walk P pre' t cur' calm'
